@@ -2,6 +2,7 @@
 From Coq Require Import String Ascii List Bool ZArith Arith.
 Import ListNotations.
 Require Import V.Lib.PyStr V.Lib.JTree V.Conf.Model V.Conf.Proofs.
+Require Import V.Conf.Rescan V.Conf.RescanProofs V.Conf.Acyclic V.Conf.Tree V.Conf.TreeInterp V.Conf.Types.
 Open Scope string_scope.
 
 (* Precedence, for every list of layers (lowest priority first), every option path and every variable:
@@ -90,6 +91,114 @@ Proof.
 Qed.
 Print Assumptions C04_types.
 
+(* ---------------------------------------------------------------------------------------------------------------
+   "... followed by substituting variable references until none of a defined variable remains":
+   the RE-SCANNING model of FlowIR.interpolate (Rescan.v: the loop of the code, which scans the text again after
+   every substitution), for every loop fuel [extra], every context and every string, with no side condition:
+   (1) when it succeeds, no position of the result matches the reference pattern with an undotted name — neither a
+       defined nor an undefined variable is left in place ([live t] = the names matched at ANY position of t; the
+       same in terms of the tokens of a left-to-right scan from any offset);
+   (2) an unknown-variable error names an undefined variable;
+   (3) when the left-most reference of the string is to an undefined variable, that is the outcome. *)
+Theorem C04_rescan : forall (extra : nat) (ctx : alist) (s : string),
+  (forall t, interp_string_rs extra ctx s = Ok t ->
+     (forall n, In n (live t) -> dotted n = true) /\ (forall k n, In (TRef n) (scan k t) -> dotted n = true))
+  /\ (forall v, interp_string_rs extra ctx s = Err (EUnknown v) -> lookup v ctx = None)
+  /\ (forall b n a, first_ref s = Some (b, n, a) -> dotted n = false -> lookup n ctx = None ->
+        interp_string_rs extra ctx s = Err (EUnknown n)).
+Proof.
+  intros extra ctx s. split; [|split].
+  - intros t H. pose proof (interp_string_rs_ok_live extra ctx s t H) as G.
+    split; [exact G|]. intros k n Hn. exact (G n (scan_live t k n Hn)).
+  - intros v. exact (interp_string_rs_unknown extra ctx s v).
+  - intros b n a. exact (interp_string_rs_first_undefined extra ctx s b n a).
+Qed.
+Print Assumptions C04_rescan.
+
+(* The one-pass model of C04_interp IS the re-scanning model whenever neither the literal text of the string and of
+   the variables' values nor a float representation carries a '%' (then no substitution can complete a new reference
+   with the text around it) — for strings and for whole trees (FlowIR.fill_in).  So on such inputs everything
+   C04_interp states holds of the loop the code runs: in particular an unknown-variable error names a variable that
+   is undefined AND referenced (nothing else is ever substituted), and no reference at all remains. *)
+Theorem C04_rescan_one_pass : forall (extra : nat) (ctx : alist),
+  ctx_plain ctx ->
+  (forall s, lits_plain (scan 0 s) -> interp_string_rs extra ctx s = interp_string ctx s)
+  /\ (forall v, leaves_plain v -> interp_tree_rs extra ctx v = interp_tree ctx v).
+Proof.
+  intros extra ctx Hc. split.
+  - intros s Hl. exact (interp_string_rs_eq extra ctx s Hc Hl).
+  - intros v Hl. exact (interp_tree_rs_eq extra ctx v Hc Hl).
+Qed.
+Print Assumptions C04_rescan_one_pass.
+
+(* Acyclicity.  [dep ctx w n]: the value of w is a string that references n; [acyclic ctx]: no variable reaches
+   itself through references.  (1) The ranking that C04_interp assumes exists EXACTLY for the acyclic contexts
+   (rank = length of the longest chain of references from the variable, at most the number of variables);
+   (2) so under plain acyclicity the one-pass model never gives the cycle error, for strings and trees, and
+   (3) on plain text neither does the re-scanning model. *)
+Theorem C04_acyclic : forall (ctx : alist),
+  (acyclic ctx <->
+   exists rank : string -> nat,
+     (forall w s n, lookup w ctx = Some (JStr s) -> In (TRef n) (scan 0 s) -> rank n < rank w) /\
+     (forall n, rank n <= length ctx))
+  /\ (acyclic ctx -> (forall s, interp_string ctx s <> Err ECycle) /\ (forall v, interp_tree ctx v <> Err ECycle))
+  /\ (acyclic ctx -> ctx_plain ctx -> forall extra s, lits_plain (scan 0 s) ->
+        interp_string_rs extra ctx s <> Err ECycle).
+Proof.
+  intros ctx. split; [exact (acyclic_iff_ranked ctx)|]. split.
+  - intros Ha. split; [intros s; exact (acyclic_interp_no_cycle ctx s Ha)|intros v; exact (interp_tree_no_cycle ctx v Ha)].
+  - intros Ha Hc extra s Hl. rewrite (interp_string_rs_eq extra ctx s Hc Hl). exact (acyclic_interp_no_cycle ctx s Ha).
+Qed.
+Print Assumptions C04_acyclic.
+
+(* Trees (FlowIR.fill_in over the whole configuration; [leaves v] = the string leaves in the order they are visited,
+   [first_err f l e] = e is the error of the first leaf of l on which f fails, all earlier leaves succeed).
+   Re-scanning model: (1) every string leaf of a resolved tree is free of references to undotted variables;
+   (2) an unknown-variable error names an undefined variable and is the error of the first failing leaf.
+   One-pass model: (3) success means every undotted reference of every leaf was to a defined variable, and on plain
+   text no leaf of the result holds a '%' or a reference; (4) an unknown-variable error names an undefined variable
+   that some leaf references, directly or through the value of a variable, and is the error of the first failing leaf. *)
+Theorem C04_interp_tree : forall (extra : nat) (ctx : alist) (v : jv),
+  (forall v', interp_tree_rs extra ctx v = Ok v' ->
+     forall t, In t (leaves v') ->
+       (forall n, In n (live t) -> dotted n = true) /\ (forall k n, In (TRef n) (scan k t) -> dotted n = true))
+  /\ (forall x, interp_tree_rs extra ctx v = Err (EUnknown x) ->
+        lookup x ctx = None /\ first_err (interp_string_rs extra ctx) (leaves v) (EUnknown x))
+  /\ (forall v', interp_tree ctx v = Ok v' ->
+        (forall s, In s (leaves v) -> forall n, In (TRef n) (scan 0 s) -> dotted n = false -> lookup n ctx <> None) /\
+        (ctx_plain ctx -> (forall s, In s (leaves v) -> lits_plain (scan 0 s) /\ no_dotted (scan 0 s)) ->
+         forall t, In t (leaves v') -> no_pct t /\ forall k n, ~ In (TRef n) (scan k t)))
+  /\ (forall x, interp_tree ctx v = Err (EUnknown x) ->
+        lookup x ctx = None /\
+        first_err (interp_string ctx) (leaves v) (EUnknown x) /\
+        exists s, In s (leaves v) /\
+          (In (TRef x) (scan 0 s) \/ exists w s', lookup w ctx = Some (JStr s') /\ In (TRef x) (scan 0 s'))).
+Proof.
+  intros extra ctx v. split; [|split; [|split]].
+  - intros v'. exact (interp_tree_rs_ok extra ctx v v').
+  - intros x. exact (interp_tree_rs_unknown extra ctx v x).
+  - intros v'. exact (interp_tree_ok ctx v v').
+  - intros x. exact (interp_tree_unknown ctx v x).
+Qed.
+Print Assumptions C04_interp_tree.
+
+(* Typed leaves, the whole conversion table at once: in a configuration that convert_component_types accepted, and
+   hence in every resolved configuration (one-pass or re-scanning model), the leaf at EVERY row's path has the row's
+   declared type whenever it is a string, an integer or a boolean (null, floats, lists stay as they are: C04_types). *)
+Theorem C04_types_table :
+  (forall v v', convert conv_table v = Ok v' ->
+     forall pi k, In (pi, k) conv_table -> forall x, get_path pi v' = Some x -> convertible x -> has_conv_type k x)
+  /\ (forall dflt d files p stage name r,
+        resolve dflt d files p stage name = Ok r \/ (exists extra, resolve_rs extra dflt d files p stage name = Ok r) ->
+        forall pi k, In (pi, k) conv_table -> forall x, get_path pi r = Some x -> convertible x -> has_conv_type k x).
+Proof.
+  split; [exact conv_table_typed|].
+  intros dflt d files p stage name r [H|[extra H]].
+  - rewrite <- resolve_with_one_pass in H. exact (resolve_with_typed _ dflt d files p stage name r H).
+  - exact (resolve_with_typed _ dflt d files p stage name r H).
+Qed.
+Print Assumptions C04_types_table.
+
 (* non-vacuity: a two-platform document; on platform p the platform blueprint beats the default one, the
    component's override for p beats the component, the variable chain a -> b is followed, the override of the
    foreign platform q (which references an undefined variable) is ignored, and the typed leaf is converted *)
@@ -122,11 +231,22 @@ Example C04_nonvacuous :
   resolve ex_dflt ex_doc [] "q" 0 "c" = Err (EUnknown "undefined") /\
   Forall (fun l => nodict (get_path ["command"; "arguments"] l)) (opt_layers ex_dflt ex_doc "p" "0" (JDict [])) /\
   ctx_plain [("a", JStr "<%(b)s>"); ("b", JStr "B")] /\
-  interp_string [("a", JStr "%(a)s")] "%(a)s" = Err ECycle.
+  interp_string [("a", JStr "%(a)s")] "%(a)s" = Err ECycle /\
+  (* new hypotheses are satisfiable, and the re-scanning model differs from the one-pass model where it should:
+     x = "%(" completes a reference to y with the text that follows it *)
+  acyclic [("a", JStr "<%(b)s>"); ("b", JStr "B")] /\
+  leaves_plain (JDict [("k", JList [JStr "pg %(a)s"; JInt 1])]) /\
+  interp_string_rs 0 [("x", JStr "%("); ("y", JStr "Y")] "%(x)sy)s" = Ok "Y" /\
+  interp_string [("x", JStr "%("); ("y", JStr "Y")] "%(x)sy)s" = Ok "%(y)s" /\
+  interp_string_rs 0 [("y", JStr "Y")] "%(flow.z)s %(y)s %(u)s" = Err (EUnknown "u") /\
+  resolve_rs 0 ex_dflt ex_doc [] "p" 0 "c" = resolve ex_dflt ex_doc [] "p" 0 "c" /\
+  ex_get ["resourceRequest"; "numberProcesses"] (resolve_rs 0 ex_dflt ex_doc [] "p" 0 "c") = Some (JInt 4).
 Proof.
-  repeat split; try (vm_compute; reflexivity).
+  repeat split; try (vm_compute; reflexivity); try exact ex_ctx_acyclic.
   - vm_compute. repeat constructor.
   - intros w s H. cbn in H. destruct (String.eqb w "a"); [injection H as <-|destruct (String.eqb w "b"); [injection H as <-|discriminate]];
       vm_compute; intros c Hc; repeat (destruct Hc as [Hc|Hc]; [try discriminate; injection Hc as <-; reflexivity|]); destruct Hc.
   - intros w r H. cbn in H. destruct (String.eqb w "a"); [discriminate|destruct (String.eqb w "b"); discriminate].
+  - intros s Hs. vm_compute in Hs. destruct Hs as [<-|[]]. vm_compute.
+    intros c Hc; repeat (destruct Hc as [Hc|Hc]; [try discriminate; injection Hc as <-; reflexivity|]); destruct Hc.
 Qed.
